@@ -751,7 +751,7 @@ func (i *hInfo) Name() gobinlog.MysqlTableName   { return i.name }
 func (i *hInfo) Columns() []gobinlog.MysqlColumn { return i.cols }
 
 func (m *tblMapper) MysqlTable(name gobinlog.MysqlTableName) (gobinlog.MysqlTable, error) {
-	m.calls = append(m.calls, name.DbName+"."+name.TableName)
+	m.calls = append(m.calls, name.DbName+"\x00"+name.TableName) // (a dot would make "a.b"."c" and "a"."b.c" the same key)
 	for i, t := range m.tables {
 		if t.db == name.DbName && t.name == name.TableName {
 			if m.mode == fmt.Sprintf("err@%d", i) {
